@@ -228,6 +228,10 @@ class DesignProperty:
             for f in ctx.fails:
                 acc.fail(f["bucket"], f["case"], f["message"])
         runner.drive(self.strategy(tier), body, n, seed_value)
+        if G.GEN_ERRORS:
+            acc.extra["generator_errors_rejected"] = sum(G.GEN_ERRORS.values())
+            for k, v in G.GEN_ERRORS.items():
+                acc.classes["generator-error:" + k] += v
         return acc
 
     def run(self, tier, seed):
